@@ -932,3 +932,22 @@ Proof.
   intros ls s a Hok H Hp. pose proof (steps_good _ _ _ Good0 Hok H) as HG.
   apply (progress_pf a (mu a s) s (le_n _) HG). apply pending_iff; [exact (proj1 HG)|exact Hp].
 Qed.
+
+
+(* per-client conservation, counted: every datagram received for a client is either handed to a handler invocation
+   (observed, exactly once), or is the one datagram of a refused invocation (generator ended before its first yield), or
+   is still there (held by a starting generator, queued, or with a handler task that has not run) *)
+Lemma filter_partition_length {X} (f : X -> bool) (l : list X) :
+  length l = length (filter f l) + length (filter (fun x => negb (f x)) l).
+Proof. induction l as [|x l IH]; simpl; [reflexivity|]. destruct (f x); simpl; lia. Qed.
+
+Lemma conservation_pf :
+  forall ls s o a, Forall ok_label ls -> trace state0 ls = Some (s, o) ->
+    length (arrivals a ls) =
+      length (received a o) + length (discarded (cl s a)) +
+      length (held (cl s a)) + length (queue (cl s a)) + length (proj a (spawned s)).
+Proof.
+  intros ls s o a Hok H. destruct (fifo_exactly_once_pf ls s o a Hok H) as [Hr Hf].
+  rewrite <- Hf, Hr. unfold discarded. rewrite !app_length, !map_length.
+  rewrite (filter_partition_length snd (hist (cl s a))). lia.
+Qed.
